@@ -91,6 +91,64 @@ def block_granularity(rep, fb, rule):
 
 
 
+NULLABLE = ('lua_tolstring', 'getenv', 'lua_tostring')
+TYPE_GUARDS = ('lua_isstring', 'lua_type', 'lua_isnumber')
+
+
+def null_strings(rep, fb, rule):
+    sites = 0
+    for f in fb.funcs.values():
+        if not f.file.startswith('src/uscxml/') or not f.d.get('cfg'):
+            continue
+        srcs = [n for n in f.walk() if n['k'] == 'CallExpr' and n.get('callee', {}).get('q', '') in NULLABLE]
+        if not srcs:
+            continue
+        g = cfgm.CFG(f)
+        dom = None
+        # locals holding such a result
+        holders = {}
+        for n in f.walk():
+            if n['k'] == 'DeclStmt':
+                for d in n.get('decls', []):
+                    if d.get('init') is not None and any(x in srcs for x in sub(d['init'])) and (d.get('t') or '').replace('const ', '').strip() == 'char *':
+                        holders[d['lid']] = d
+        for n in f.walk():
+            if n['k'] != 'CXXConstructExpr' or 'basic_string' not in n.get('callee', {}).get('q', '') or not n.get('c'):
+                continue
+            a = strip(n['c'][0])
+            if a is None:
+                continue
+            src = None
+            if a in srcs:
+                src = ('call', a)
+            elif a['k'] == 'DeclRefExpr' and a.get('ref', {}).get('lid') in holders:
+                src = ('local', a)
+            if src is None:
+                continue
+            sites += 1
+            if n['id'] not in g.pos:
+                continue
+            dom = dom or g.dominators()
+            guarded = False
+            for bid, b in g.blocks.items():
+                c = b.get('cond')
+                if c is None or c not in f.nodes:
+                    continue
+                cn = f.nodes[c]
+                tests = any(x.get('callee', {}).get('q', '') in TYPE_GUARDS for x in sub(cn)) if src[0] == 'call' else any(
+                    x['k'] == 'DeclRefExpr' and x.get('ref', {}).get('lid') == src[1]['ref']['lid'] for x in sub(cn))
+                if tests and bid in dom.get(g.pos[n['id']][0], ()) and bid != g.pos[n['id']][0]:
+                    guarded = True
+            # `v ? v : ""` : the construct sits in an arm of a conditional that tests the local
+            for anc in f.ancestors(n):
+                if anc['k'] == 'ConditionalOperator' and src[0] == 'local' and any(x['k'] == 'DeclRefExpr' and x.get('ref', {}).get('lid') == src[1]['ref']['lid'] for x in sub(anc['c'][0])):
+                    guarded = True
+            what = fb.text(src[1])[:40]
+            rep.check(guarded, rule, '%s|%s' % (f.q.split('uscxml::')[-1], what.split('(')[0]), locstr(n), 'std::string built from `%s`: %s' % (
+                what, 'after a NULL / type test' if guarded else 'WITHOUT a NULL test -- a NULL result (e.g. a Lua error object that is not a string) throws std::logic_error instead of raising error.execution'))
+    rep.minimum(rule, sites, 2, 'std::string constructions from lua_tolstring / getenv results')
+
+
 def run(rep, tier):
     rep.rule('R07.1', 'containment at the micro-step boundary: every callback call in LargeMicroStep::step / FastMicroStep::step either has an empty may-throw set or is enclosed by handlers catching all of it')
     rep.rule('R07.2', 'thread roots and C callbacks of the interpreter core are exception-closed: mayThrow(root) is empty')
@@ -98,6 +156,7 @@ def run(rep, tier):
     rep.rule('R07.4', 'one failure, one error event: a handler that enqueues the error and re-throws must re-throw a type that the same handler of an enclosing (recursive) activation cannot catch')
     rep.rule('R07.5', 'block granularity: each process() call in the engines sits alone in a try{}catch(...) that contains no loop, so an error skips one block only')
     rep.rule('R07.6', 'crash sources in the anchored evaluators: integer / and % in PromelaDataModel::evaluateExpr are unreachable with a zero divisor; array indices are rejected below 0 and from the declared size on')
+    rep.rule('R07.7', 'no std::string from a possibly-NULL C string: the result of lua_tolstring (lua_tostring) or getenv is turned into a std::string only after a NULL / type test (std::string(NULL) throws std::logic_error, which no error handler of the content path catches)')
     rep.assume('exceptions originating in third-party code (Lua, Xerces, libevent, libcurl) other than the library-thrower table are not modelled')
     rep.assume('user-supplied monitors and loggers do not throw (calls through InterpreterMonitor / Logger are opaque)')
     for k, v in INFEASIBLE.items():
@@ -112,6 +171,7 @@ def run(rep, tier):
                 functions_that_may_throw=sum(1 for m in ex.may if ex.may[m]))
     rep.minimum('R07.1', nthrow, 120, 'throw sites in the library')
 
+    null_strings(rep, fb, 'R07.7')
     # ---- R07.1
     for eq in ENGINES:
         f = fb.fn(eq)
